@@ -37,7 +37,7 @@ REAL = ['py4hw.simulation.Simulator (topologicalSort, propagateAll, clk)', 'py4h
 STUB = ['stimulus (wire.put between clk calls)']
 ASSUMPTIONS = ['reference models in dsim/catalog.py state the documented function of each block',
                'netlists up to ~150 leaves / chains up to 900 deep (thorough); widths up to 70']
-PROBES = ['gated_top_driver', 'simulator_before_cycle_closed', 'const_update', 'stop_cancel', 'sorter_needed_repair', 'cyclic_refused', 'reg_cycle_accepted', 'late_add', 'antidataflow_block']
+PROBES = ['settled_by_clk0', 'gated_top_driver', 'simulator_before_cycle_closed', 'const_update', 'stop_cancel', 'sorter_needed_repair', 'cyclic_refused', 'reg_cycle_accepted', 'late_add', 'antidataflow_block']
 
 STATEFUL_LEAVES = {'Latch', 'AsynchronousMemory', 'BidirBuf'}
 
@@ -84,7 +84,7 @@ def gen(rs, tier, index):
         vec = netlist.gen_vector(sr, d['inputs'], prev)
         prev = vec
         faults = [f for f in ('resort', 'sim_restart', 'extra_settle') if fr.random() < 0.2]
-        n = sr.choice([1, 1, 1, 2, 3, 6])
+        n = sr.choice([0, 1, 1, 1, 2, 3, 6])        # clk(0): settle only, no edge
         step = {'vec': vec, 'clk': n, 'faults': faults, 'stop_at': fr.randint(1, n - 1) if (n > 1 and fr.random() < 0.3) else None}
         consts = [nd for nd in d['nodes'] if nd['kind'] == 'Constant' and not nd.get('guard')]
         if consts and fr.random() < 0.2:
@@ -276,6 +276,8 @@ def run(scn, log, st):
             n = stop_at
         else:
             sim.clk(n)
+            if n == 0:
+                st.probe('settled_by_clk0')
         en = None
         if d.get('top_enable'):
             ten = ref.b.wires[d['top_enable']]
